@@ -99,7 +99,8 @@ func c10Ops() []string {
 const c10Observer = "[x, y, z, sx, sy, sz, keep, lit(), c(), pair(1), trip(2)]"
 
 type c10Item struct {
-	Ops []int `json:"ops"`
+	Ops   []int    `json:"ops,omitempty"`
+	Stmts []string `json:"stmts,omitempty"` // directed families: the session itself
 }
 
 type arrInfo struct {
@@ -199,7 +200,7 @@ func init() {
 	core.Register(&core.Check{
 		ID:    "C10",
 		Level: "model_checking",
-		Rule: "explicit-state search over all sequences of length <= 3 (quick) / 4 (thorough) of 57 array/string operations on the globals x, y, z, sx, sy, sz, keep (literals at top level, inside a function called repeatedly and inside a loop; every slice x[i:j]; concatenations of slices, of slices of slices, nested arrays; passing to a concatenating function; iterating with elems; capture in a closure and in a generator that concatenate; string analogues). After every operation the observer [x, y, z, sx, sy, sz, keep, lit(), c(), pair(1), trip(2)] is evaluated on the real VM and on the reference model (which copies always): every variable not assigned, every earlier result and every literal must still print as before; sequences of length <= 2 and all sequences containing a statement that ends in a runtime error are also typed into the real read-eval loop (processInput), whose echo of every observer must equal the in-process value. " +
+		Rule: "explicit-state search over all sequences of length <= 3 (quick) / 4 (thorough) of 57 array/string operations on the globals x, y, z, sx, sy, sz, keep (literals at top level, inside a function called repeatedly and inside a loop; every slice x[i:j]; concatenations of slices, of slices of slices, nested arrays; passing to a concatenating function; iterating with elems; capture in a closure and in a generator that concatenate; string analogues). After every operation the observer [x, y, z, sx, sy, sz, keep, lit(), c(), pair(1), trip(2)] is evaluated on the real VM and on the reference model (which copies always): every variable not assigned, every earlier result and every literal must still print as before; sequences of length <= 2 and all sequences containing a statement that ends in a runtime error are also typed into the real read-eval loop (processInput), whose echo of every observer must equal the in-process value. Directed families against the same reference: array literals with 0..10 leading constants and 1..3 computed elements evaluated by repeated calls, in loops and in recursion while earlier results are alive; every concatenation chain of 3 and 4 operands over literals, slices with live data behind their end, three kinds of empty array and earlier concatenation results (and the string analogue). " +
 			"states = distinct (renderings, len/cap of every live array, backing-array sharing relation) read through the value hook; transitions = operations applied; distinct_nontrivial = sequences after which two live arrays share a backing array with spare capacity (so an in-place append could have collided)",
 		Assumptions: []string{"reference model refsem copies on every operation", "array layout is read through value.VerifArrayInfo (size of value.Type assumed 24 bytes for the overlap test)"},
 		Exec: func(payload string) (string, string) {
@@ -207,6 +208,12 @@ func init() {
 			var it c10Item
 			if err := json.Unmarshal([]byte(payload), &it); err != nil {
 				return "harness:bad-payload", err.Error()
+			}
+			if len(it.Stmts) > 0 {
+				if o := sess.Compare(it.Stmts, sess.Options{}); o.Sig != "" {
+					return "immutability:" + o.Sig, o.Detail
+				}
+				return "", ""
 			}
 			s, d, _, _ := c10Judge(it.Ops)
 			return s, d
@@ -223,7 +230,7 @@ func c10Run(w *core.W) {
 	}
 	w.Family("operation-sequences")
 	gen.Seqs(len(c10Ops()), 1, maxLen, func(seq []int) bool {
-		b, _ := json.Marshal(c10Item{append([]int{}, seq...)})
+		b, _ := json.Marshal(c10Item{Ops: append([]int{}, seq...)})
 		if !w.Mine(string(b)) {
 			return true
 		}
@@ -241,5 +248,88 @@ func c10Run(w *core.W) {
 		}
 		return !w.Expired("time budget reached")
 	})
+	// literal shapes: 0..10 leading constants followed by 1..3 computed elements (and a computed element first), built
+	// by a function called twice, inside a loop at top level and inside a loop in a function; earlier results stay alive
+	w.Family("literal-shapes")
+	for c := 0; c <= 10; c++ {
+		consts := []string{}
+		for k := 1; k <= c; k++ {
+			consts = append(consts, fmt.Sprint(k))
+		}
+		for _, suffix := range [][]string{{"n"}, {"n", "n + 1"}, {"n", "0", "n"}, {"[n]"}, {"\"s\" + toa(n)"}} {
+			for _, front := range []bool{false, true} {
+				el := append(append([]string{}, consts...), suffix...)
+				if front {
+					el = append([]string{"n"}, el...)
+				}
+				lit := "[" + strings.Join(el, ", ") + "]"
+				st := []string{"f = (n) -> " + lit, "a = f(10)", "b = f(20)", "[a, b]", "rows = []", "for n <- fromto(0, 3) rows = rows + [" + lit + "]", "rows",
+					"g = () -> {\n  r = []\n  for i <- fromto(0, 3) r = r + [f(i)]\n  r\n}", "k = g()", "[k, g()]", "[a, b, rows, k]",
+					"h = (n) -> if n <= 0 {\n  []\n} else [" + lit + "] + h(n - 1)", "h(3)", "[a, b, rows, k]"}
+				if !c10Directed(w, st) {
+					return
+				}
+			}
+		}
+	}
+	// concatenation chains: every chain of 3 and 4 operands (left-nested, and right-nested for 3) over arrays that are
+	// literals, slices with live data behind their end, empty in three ways, and results of earlier concatenations
+	w.Family("concatenation-chains")
+	{
+		pre := []string{"x = [1, 2, 3, 4]", "y = x[0:2]", "none = []", "e = x[0:0]", "z = [5] + [6]", "id = (v) -> v"}
+		opsA := []string{"x", "y", "x[1:3]", "none", "[]", "e", "[9]", "z", "x[0:2]"}
+		obs := "[x, y, z, e, none]"
+		chain := func(c []string) bool {
+			ch := strings.Join(c, " + ")
+			st := append(append([]string{}, pre...), "r = "+ch, obs, "q = "+ch, "[r, q]", obs, "h = () -> "+ch, "[h(), h()]", obs)
+			if !c10Directed(w, st) {
+				return false
+			}
+			if len(c) == 3 {
+				st = append(append([]string{}, pre...), "r = "+c[0]+" + ("+c[1]+" + "+c[2]+")", obs, "r = id("+c[0]+" + "+c[1]+") + "+c[2], "r", obs)
+				return c10Directed(w, st)
+			}
+			return true
+		}
+		for _, a := range opsA {
+			for _, b := range opsA {
+				for _, c := range opsA {
+					if !chain([]string{a, b, c}) {
+						return
+					}
+					for _, d := range opsA {
+						if !chain([]string{a, b, c, d}) {
+							return
+						}
+					}
+				}
+			}
+		}
+		preS := []string{"x = \"abcd\"", "y = x[0:2]", "none = \"\"", "e = x[0:0]", "z = \"5\" + \"6\"", "id = (v) -> v"}
+		opsS := []string{"x", "y", "x[1:3]", "none", "\"\"", "\"9\"", "z"}
+		for _, a := range opsS {
+			for _, b := range opsS {
+				for _, c := range opsS {
+					ch := a + " + " + b + " + " + c
+					if !c10Directed(w, append(append([]string{}, preS...), "r = "+ch, obs, "q = "+ch, "[r, q]", obs)) {
+						return
+					}
+				}
+			}
+		}
+	}
 	_ = strings.Join
+}
+
+// c10Directed runs one directed session against the reference model (which copies on every operation).
+func c10Directed(w *core.W, stmts []string) bool {
+	b, _ := json.Marshal(c10Item{Stmts: stmts})
+	if w.Mine(string(b)) {
+		w.Count("traces_validated_against_impl", 1)
+		w.Count("transitions", int64(len(stmts)))
+		if o := sess.Compare(stmts, sess.Options{}); o.Sig != "" {
+			w.Fail(string(b), "immutability:"+o.Sig, o.Detail)
+		}
+	}
+	return !w.Expired("time budget reached")
 }
